@@ -440,6 +440,7 @@ func init() {
 		Level: "exploration",
 		Rule: "case = seed-determined sequence of 5-40 operations on one real sidecar over a universe of 6 targets / 2 jobs: update (adds, removals, pure state flips, exact repeats, empty set, moves between jobs), scrape through the real proxy (successful with 0-59 samples, or failing with 503; assigned and unassigned hashes), update arriving while a scrape of a kept target is held inside the round trip to the target, update whose Prometheus-reload callback fails (the idle/status invariants must hold all the same; no restart until a clean update), restart (all objects rebuilt on the same store directory); after every operation /targets/status/ and /runtimeinfo/ are compared with a ~60-line reference model of (status map, idle-since); " +
 			"two further operations: an update that keeps a target arrives while a scrape of it is held inside the harness transport (the model applies the update, then the scrape), and an update whose Prometheus-reload callback fails (the request fails, the in-memory state is still the requested one, nothing is persisted until the next clean update); " +
+			"in one case in four an old version's targets.json (one target) is left next to the current store before every restart - it must mean nothing once the current store exists; " +
 			"idle-since is judged by equality with the instant first reported for the idle period and by bracketing that first report with the harness' clock readings around the emptying update; non-trivial = at least 5 operations; distinct = hash of the operation sequence",
 		Assumptions: []string{
 			"conflicting duplicates of one hash inside a single request are not generated (the statement does not define them)",
